@@ -255,6 +255,13 @@ def law_checks(ctx, pool):
                 continue
             if E[i, j] is not None and m != E[i, j]:
                 ctx.violation(comp(i, j), cfg(i, j), 'membership!=space-equality', sp=util.srepr(sp, 80), other=util.srepr(other, 80))
+            if m and other is not sp:
+                # an element of an equal (not identical) space instance is an element of this one: handed back as it is
+                try:
+                    if other.element(x) is not x:
+                        ctx.violation(comp(i, j), cfg(i, j), 'element(x)-is-not-x', sp=util.srepr(sp, 80), probe='x from an equal but not identical space')
+                except Exception as e:
+                    ctx.violation(comp(i, j), cfg(i, j), 'element(x)-raises:' + type(e).__name__, sp=util.srepr(sp, 80))
         try:
             if sp.element(x) is not x:
                 ctx.violation(comp(i), 'pool', 'element(x)-is-not-x', sp=util.srepr(sp, 80))
